@@ -71,7 +71,7 @@ func NamePool(t *rapid.T, n int, label string) []string {
 
 		mode := 0
 		if len(pool) > 0 {
-			mode = rapid.IntRange(0, 5).Draw(t, label+"-mode")
+			mode = rapid.IntRange(0, 6).Draw(t, label+"-mode")
 		}
 
 		switch mode {
@@ -91,6 +91,9 @@ func NamePool(t *rapid.T, n int, label string) []string {
 			} else {
 				s = strings.ToLower(base)
 			}
+		case 6: // an earlier name with something in front: r -> ar, r -> b1r
+			base := rapid.SampledFrom(pool).Draw(t, label+"-base")
+			s = rapid.SampledFrom([]string{"a", "r", "b1", "c-", "1_"}).Draw(t, label+"-front") + base
 		case 2: // prefix of an earlier name
 			base := rapid.SampledFrom(pool).Draw(t, label+"-base")
 			if len(base) > 1 {
